@@ -114,7 +114,7 @@ def run_family(ctx, n_quick, n_thorough, maxv_quick=9, maxv_thorough=14):
     pins = pinned(ctx, "search")
     scns += run_harness_scenarios(ctx, "search", [p["scenario"] for p in pins])
     # the exhaustive small scope of the model, replayed into the code (stride sample in the quick tier)
-    scns += run_harness_scenarios(ctx, "search", tlc_scenarios(ctx, 2500 if quick else 150000))
+    scns += run_harness_scenarios(ctx, "search", tlc_scenarios(ctx, 2500 if quick else 60000))
     # seeded random scenarios biased towards this property
     n = n_quick if quick else n_thorough
     out = ctx.harness(["search", "--random", str(n), "--maxv", str(maxv_quick if quick else maxv_thorough),
@@ -122,7 +122,7 @@ def run_family(ctx, n_quick, n_thorough, maxv_quick=9, maxv_thorough=14):
     scns += common.split_scenarios(out)
     # the same kind of scenario submitted as a query through a CompassApp built from a configuration file and input
     # files; only the response is recorded (black box) and TLC looks for a behaviour of Search that ends in it
-    out = ctx.harness(["appsearch", "--random", str(400 if quick else 20000), "--maxv", str(7 if quick else 10),
+    out = ctx.harness(["appsearch", "--random", str(400 if quick else 10000), "--maxv", str(7 if quick else 10),
                        "--focus", pid.lower()], timeout=3000)
     app_scns = common.split_scenarios(out)
     ctx.extra["application_level_scenarios"] = len(app_scns)
